@@ -72,7 +72,17 @@ def sym_vs_lean(sym_entries, lean_entries, env, what, out, tags):
         has_float = bool(sympy.sympify(s).atoms(sympy.Float))   # pygom re-evaluates str(derived eqn): 3/2 becomes 1.5
         if has_float:
             tags.append("python_expr_has_float")
-        if not (E.close(lv, sv, rel=mpf("1e-12"), abs_=mpf("1e-13")) if has_float else E.close(lv, sv)):
+        if has_float:
+            # a double-precision literal (1e-3, 0.25; str(3/2) of a derived parameter) inside a sum that cancels: the error is
+            # relative to the terms that are added up (exprs.ev_bound of the model's expression), not to the result
+            try:
+                bound = E.ev_bound(l, env)[1]
+            except (E.Undefined, ZeroDivisionError):
+                bound = abs(lv)
+            ok_ = abs(lv - sv) <= mpf("1e-13") + mpf("1e-12") * max(abs(lv), abs(sv), bound)
+        else:
+            ok_ = E.close(lv, sv)
+        if not ok_:
             out.append({"what": what, "detail": "entry %d: python=%s lean=%s at %s ; python expr %s" % (
                 idx, mpf_s(sv), mpf_s(lv), {k: str(v) for k, v in env.items()}, str(s)[:300])})
             return
@@ -109,6 +119,96 @@ def net_oracle(meta, spec, env):
         pure[states.index(o["state"])] += E.ev(o["expr"], denv)
     f = [f[i] + pure[i] for i in range(n)]
     return f, V, a, pure
+
+
+def net_oracle_bounds(meta, spec, env):
+    """net_oracle together with a cancellation-aware scale for every entry (exprs.ev_bound): returns (f, V, a, pure) and
+    (Bf, BV, Ba, Bpure) of the same shapes.  For points with very small / very large values (1e-9 .. 1e8): an entry is right
+    when |got - expected| <= rel * bound, RELATIVE PER ENTRY - no absolute floor that would hide an entry of size 1e-9."""
+    denv = gen.derived_env(spec.get("derived", []), env)
+    # bounds of the derived parameters themselves (a derived value enters the expressions as a variable)
+    dB = {}
+    for name, e in spec.get("derived", []):
+        v, b = E.ev_bound(e, dict(denv))
+        dB[name] = (b / abs(v)) if v != 0 else mpf(1)
+    infl = max([mpf(1)] + list(dB.values()))      # condition of the worst derived parameter, applied to every bound
+    states = meta["states"]
+    n = len(states)
+    f = [mpf(0)] * n; Bf = [mpf(0)] * n
+    V, a, BV, Ba = [], [], [], []
+    for p in meta["procs"]:
+        r, Br = E.ev_bound(p["rate"], denv)
+        col = [mpf(0)] * n; bcol = [mpf(0)] * n
+        for tr in p["transitions"]:
+            m, Bm = E.ev_bound(tr["mag"], denv)
+            if tr["type"] in ("T", "D"):
+                k = states.index(tr["origin"]); col[k] -= m; bcol[k] += Bm
+            if tr["type"] in ("T", "B"):
+                k = states.index(tr["dest"]); col[k] += m; bcol[k] += Bm
+        V.append(col); a.append(r); BV.append([b * infl for b in bcol]); Ba.append(Br * infl)
+        for i in range(n):
+            f[i] += r * col[i]; Bf[i] += Br * bcol[i]
+    pure = [mpf(0)] * n; Bp = [mpf(0)] * n
+    for o in meta["odes"]:
+        v, b = E.ev_bound(o["expr"], denv)
+        k = states.index(o["state"]); pure[k] += v; Bp[k] += b
+    f = [f[i] + pure[i] for i in range(n)]
+    Bf = [(Bf[i] + Bp[i]) * infl for i in range(n)]
+    return (f, V, a, pure), (Bf, BV, Ba, [b * infl for b in Bp])
+
+
+def printer_check(spec, env, mism, tags, who=""):
+    """the natural-precedence printer (exprs.user_str, trusted base) against Python's own grammar: every string handed to
+    pygom for this spec, read back with Python's parser and operator precedence (exprs.python_value), has the value of the
+    tree it was printed from.  A failure is an error of the harness (reported as a mismatch), never a violation."""
+    if not spec.get("syntax"):
+        return
+    import json
+    denv = gen.derived_env(spec.get("derived", []), env)
+    for tree, string in pymodel.spec_strings(spec):
+        try:
+            ok = E.close(E.python_value(string, denv), E.ev(tree, denv), rel=mpf("1e-13"), abs_=mpf("1e-25"))
+        except E.Undefined:
+            continue
+        except Exception as exc:
+            ok = False
+            string = "%s (%s: %s)" % (string, type(exc).__name__, exc)
+        if not ok:
+            mism.append({"what": who + "harness_error:printer", "detail": "%r is not %s" % (string, json.dumps(tree))})
+            return
+    tags.append("printer_checked")
+
+
+def wide_tags(spec, meta, wide, traps):
+    """input-distribution tags of a case from the widened input space (gen_model(..., wide=...))"""
+    tags = ["wide"] + gen.mag_tags(meta)
+    sx = spec.get("syntax")
+    if sx:
+        tags += ["syntax:natural", "syntax:spaces=%s" % sx.get("spaces"), "syntax:num=%s" % sx.get("num")] + (["syntax:padded"] if sx.get("pad") else [])
+    names = list(meta["states"]) + list(meta["params"]) + list(meta.get("derived", []))
+    if wide.get("names"):
+        tags.append("names:trap")
+        tags += ["name:" + n_ for n_ in names if n_ in traps]
+    if any(E.free_vars(d_[1]) & set(meta["states"]) for d_ in spec.get("derived", [])):
+        tags.append("derived:contains-state")
+    if wide.get("size"):
+        tags.append("size:" + wide["size"])
+    return tags
+
+
+NAMED_TRAPS = {"i", "j", "k", "n", "e", "s", "r", "x", "y", "f", "S", "I", "E", "N", "Q", "O", "C", "pi", "exp", "log", "sin", "cos", "Max", "Min",
+               "beta", "gamma", "zeta", "len", "sum", "abs", "int", "id", "np", "list", "map", "re", "im", "oo", "nan"}
+
+
+def scaled_close(got, exp, bound, rel=1e-9, tiny=1e-290):
+    """entry by entry: |got - exp| <= rel * bound (bound from exprs.ev_bound; `tiny` only guards the denormal range)"""
+    if len(got) != len(exp):
+        return False
+    for g, e_, b in zip(got, exp, bound):
+        g = float(g)
+        if g != g or abs(mpf(g) - e_) > rel * b + tiny:
+            return False
+    return True
 
 
 def multiset_close(got, exp, rel=1e-9, abs_=1e-9):
